@@ -10,6 +10,28 @@ import (
 	"time"
 )
 
+// sweepOnce runs one pass of the daemon's own periodic clean-up loop (the goroutine then sleeps for a day; the process
+// ends long before).  A sentinel entry that is already expired tells when the pass has happened: it is one critical section.
+func (w *vWorld) sweepOnce() {
+	w.st.Mutex.Lock()
+	if w.st.pendingOauth2 == nil {
+		w.st.pendingOauth2 = make(map[string]pendingAuth2Request)
+	}
+	w.st.pendingOauth2["verif-sentinel"] = pendingAuth2Request{ExpiresAt: time.Now().Add(-time.Hour)}
+	w.st.Mutex.Unlock()
+	go w.st.performStateCleanup(86400)
+	for k := 0; k < 2000; k++ {
+		w.st.Mutex.Lock()
+		_, there := w.st.pendingOauth2["verif-sentinel"]
+		w.st.Mutex.Unlock()
+		if !there {
+			return
+		}
+		time.Sleep(2 * time.Millisecond)
+	}
+	panic("verif harness: the clean-up pass did not happen")
+}
+
 func init() { vRunners["C05fed"] = runC05Fed }
 
 func runC05Fed(t *testing.T, cases []map[string]interface{}, ev *vEvents) {
@@ -91,25 +113,7 @@ func runC05Fed(t *testing.T, cases []map[string]interface{}, ev *vEvents) {
 				w.st.Mutex.Unlock()
 				out["ok"] = true
 			case "sweep":
-				// one pass of the daemon's own clean-up loop (it then sleeps for a day; the process ends long before)
-				// a sentinel entry that is already expired tells when the pass has happened (the pass is one critical section)
-				w.st.Mutex.Lock()
-				w.st.pendingOauth2["verif-sentinel"] = pendingAuth2Request{ExpiresAt: time.Now().Add(-time.Hour)}
-				w.st.Mutex.Unlock()
-				go w.st.performStateCleanup(86400)
-				swept := false
-				for k := 0; k < 2000 && !swept; k++ {
-					w.st.Mutex.Lock()
-					_, there := w.st.pendingOauth2["verif-sentinel"]
-					w.st.Mutex.Unlock()
-					swept = !there
-					if !swept {
-						time.Sleep(2 * time.Millisecond)
-					}
-				}
-				if !swept {
-					panic("verif harness: the clean-up pass did not happen")
-				}
+				w.sweepOnce()
 				out["ok"] = true
 			default: // plantcode, leakstate: knowledge moves between people, the server sees nothing
 				out["ok"] = true
